@@ -194,6 +194,9 @@ func (c *Core) do(ctx context.Context, id Ident, a M) (any, error) {
 			return nil, errors.New("no grpc broker")
 		}
 		r := GRPCDialPing(b, uint32(Int(a, "id")), time.Duration(Int(a, "timeoutMs"))*time.Millisecond, !Bool(a, "keep"))
+		if Bool(a, "lenOnly") {
+			return M{"dialErr": r.DialErr, "pingErr": r.PingErr, "msgLen": len(r.Msg)}, nil
+		}
 		return r, nil
 	case "grpc-nextid":
 		return M{"id": c.GRPC().NextId()}, nil
